@@ -39,6 +39,10 @@ def yaml_text() -> str:
             lines.append(f"      f_{t}: {t}")
             lines.append(f"      a_{t}: {t}[{n}]")
         lines += ["      c: char", f"      s: char[{n}]", "      b: byte", f"      ba: byte[{n}]", "      st: VSUB", f"      sa: VSUB[{n}]"]
+        # a second array of every kind under another field name (array-to-array copies between differently named fields)
+        for t in list(INT_TYPES) + list(FLOAT_TYPES):
+            lines.append(f"      z_{t}: {t}[{n}]")
+        lines += [f"      bz: byte[{n}]", f"      sz: VSUB[{n}]"]
     lines += ["  VSIG:", "    id: 6100", "    fields: null"]
     return "\n".join(lines) + "\n"
 
